@@ -567,6 +567,39 @@ class GlobalVar:
         """String literals of the initialiser, in order (for tables like messages[])."""
         return [n.get("str") for n in self.nodes_j if n and n.get("k") == "StringLiteral"]
 
+    def init_rows(self):
+        """A table of {code, "text"} rows: [(code value or None, text or None)] per row, None when the initialiser is not of that form."""
+        if self.init is None or self.init < 0:
+            return None
+        top = self.nodes_j[self.init]
+        if top.get("k") != "InitListExpr":
+            return None
+        def sub(i):
+            out, todo = [], [i]
+            while todo:
+                n = self.nodes_j[todo.pop()]
+                if n:
+                    out.append(n)
+                    todo.extend(n.get("ch", []))
+            return out
+        rows = []
+        for ci in top.get("ch", []):
+            r = self.nodes_j[ci]
+            if not r or r.get("k") != "InitListExpr" or len(r.get("ch", [])) != 2:
+                return None
+            a, b = r["ch"]
+            code = None
+            for n in sub(a):
+                if "cv" in n:
+                    code = n["cv"]; break
+                if n.get("k") == "DeclRefExpr" and n.get("dk") == "enum":
+                    code = n.get("val"); break
+                if n.get("k") == "IntegerLiteral" and "val" in n:
+                    code = n["val"]; break
+            text = next((n.get("str") for n in sub(b) if n.get("k") == "StringLiteral"), None)
+            rows.append((code, text))
+        return rows
+
     def init_list_len(self):
         if self.init is None or self.init < 0:
             return None
